@@ -5,6 +5,24 @@ HERE = os.path.dirname(os.path.dirname(os.path.abspath(__file__)))
 ALL = ["C%02d" % i for i in range(1, 21)]
 
 CHECKS = {
+ "C08": dict(
+   level="exploration",
+   technique="runtime invariant monitor on lending books after every tx and block + exact LTV oracle with interval slack on successful borrow/draw messages + payout bounds, over a seeded hostile lend workload with boundary-solved amounts",
+   text="Two pools sharing transit assets, e-mode and stable-borrow pairs, 5 users, all twelve lend messages with tiny / typical / LTV-boundary-solved / +1 / whole-balance amounts, block gaps 1 s..2 y so interest and rewards accrue, price moves and crashes with borrows seized by the generation-2 begin blocker. After every event: published total lent == sum over lend positions of available-to-borrow + collateral pledged to open, not handed-over borrows; totals borrowed (variable/stable) == sum of principal of open non-liquidated borrows; successful borrow/draw only if debt value <= collateral value x applicable LTV (same-pool, e-mode, inter-pool product) and the pool held the coins; withdraw/close-lend pay <= available and leave pledged collateral untouched.",
+   note="MsgDepositBorrow is not LTV-checked (the statement bounds borrow and draw); liquidate messages and auction settlement of borrows are not part of this workload.",
+   design="§4 C08"),
+ "C16": dict(
+   level="exploration",
+   technique="differential replay of a recorded execution stream (tx bytes, block boundaries, environment actions) on fresh instances: sequentially, concurrently under the Go race detector, and in a fresh child process with GOMAXPROCS=1; comparison of tx result digests, app hashes and per-store dump hashes",
+   text="A seeded mixed workload (vaults, stable mint, lockers, liquidations and auctions of both generations, limit bids, price moves, time gaps) is executed once while everything fed to the application is recorded together with digests of every tx result (code, data, gas, events), the app hash of every block and the hash of every KV store after every begin block. The tape is replayed on R fresh instances one after the other, on R instances running concurrently in one process built with -race (a race report ends the shard with a dedicated exit status and is a violation), and in a new process with a different scheduler configuration. Map-iteration order is re-randomised by the runtime on every range, so each replay is an independent draw.",
+   note="The free-text log of a tx result is excluded from the digest (for recovered panics it contains a goroutine stack). Workloads of other fixtures (liquidity, lend) join through c16Recorders when registered.",
+   design="§4 C16"),
+ "C20": dict(
+   level="exploration",
+   technique="differential monitoring across an export/import boundary: every method of every comdex gRPC Query service (enumerated from the registered descriptors) asked with all small-id / known-address requests on both chains, id counters and typed keeper snapshots compared, then a recorded continuation replayed on the re-imported chain with tx-result and final-state comparison",
+   text="States reached by feature-set-rotated CDP workloads (vaults; +lockers; +generation-2 liquidations and Dutch bids; everything incl. generation-1 liquidate messages and limit bids) are exported with ExportAppStateAndValidators and a fresh app is initialised from the JSON. ~22k query requests over 350 non-history query methods per quick run are compared byte for byte; 16 id counters and the typed snapshot (vaults, totals, locked vaults, auctions, net fees, lockers, balances, supply, limit bids, prices) are compared; when the import is clean a continuation of a few hundred txs and blocks recorded on the original chain is replayed on the imported one and tx results (code, data, events) and the final typed state must be identical.",
+   note="History / archive queries (closed auctions, past bids, locked-vault history) are excluded: the statement is about live positions, custody, parameters, prices and counters. Gas used is excluded from the continuation comparison. The harness re-applies its own price-feeder configuration after the import (the bandoracle state loss is reported as its own finding). Many genesis gaps need new protobuf fields and are recorded as open findings, see known_findings.json.",
+   design="§4 C20"),
  "C12": dict(
    level="exploration",
    technique="paired execution with a positive control on reachable states (real signed txs): non-owner and forged-sender attempts must fail with an identical full-state dump, then the owner succeeds on the same state; reflection over the custom contract message union x chain id x sender",
